@@ -266,6 +266,8 @@ func C04(c *Ctx) {
 	r.Floor("C04-6", "handler result writes", nh, 3)
 
 	c.c04Predicates()
+	c.typePredicateRule("C04-12")
+	c.methodIterationRule("C04-13")
 
 	r.Rule("C04-9", "cast ladder identity: a function that can wrap a node (calls NewTypecast/NewStringer) returns its node parameter X unchanged with ok=true only if reach ⇒ AssignableTo(X.ExprType(), T)")
 	nid := 0
